@@ -159,7 +159,8 @@ class Monitor:
         self.out.append((sig, f"step {i} ({self.case['steps'][i]['op']}/{self.case['steps'][i].get('kind', '')}): {msg}", i))
 
     # which recorded finding (if any) explains that `ident` of `kind` is free / shared although a session uses it:
-    #  - an application id put back by a deletion that was then REJECTED, while that session is still live (F24), or
+    #  - an application id put back - or whose reference by the session was dropped, so that the deletion of another
+    #    user of the filter puts it back - by a deletion that was then REJECTED, while that session is still live (F24), or
     #  - the ctrID 0 of a PDR created by a modification (sendUpdate allocates no counter), while that PDR is live,
     #    or cell 0 after the deletion of such a session released it
     def why(self, kind, ident, st, owner=None):
@@ -227,9 +228,16 @@ class Monitor:
 
         # ---- history facts used to name the recorded shapes
         if op == "del" and cause != ACCEPTED and step["lseid"] in live_sessions(prev) and step["lseid"] in live:
+            # removeInternalApplicationIDAndGetP4rtEntry drops the session's reference - and, if it was the last one,
+            # releases the id - BEFORE the DELETE batch is written; the rejected deletion keeps session and entries
             for (k, o, v, changed) in events:
-                if o == "add" and k == "appid":       # the application id goes back before the DELETE batch is written
+                if o == "add" and k == "appid":
                     self.poisoned[(k, v)] = step["lseid"]
+            now = {(a["ip"], a["lo"], a["hi"], a["proto"]): {tuple(u) for u in a["users"]} for a in st["apps"]}
+            for a in prev["apps"]:
+                gone = {tuple(u) for u in a["users"]} - now.get((a["ip"], a["lo"], a["hi"], a["proto"]), set())
+                if any(u[0] == step["lseid"] for u in gone):
+                    self.poisoned[("appid", a["id"])] = step["lseid"]
         if op == "del":
             # the deletion of a session whose PDR carries the bogus ctrID 0 releases cell 0, whoever owns it
             for (k, o, v, changed) in events:
